@@ -232,7 +232,7 @@ class Loader:
         # Apply sorting if any requested from args
         if sortby is not None:
             for group, key in sortby.items():
-                if group in out:
+                if group in out and len(out[group]) > 0:
                     out[group].sortby(key)
 
         return out
